@@ -15,32 +15,31 @@ AUDIT = {
         'buf_idx < buf.len() <= isize::MAX',
     "<io::fasta::IndexedReaderIterator<'a, R> as std::iter::Iterator>::next|index|index(arg1.buf,0)<std::vec::Vec<u8>>":
         'fill_buffer returned Ok, and it loops `while self.buf.is_empty()`: the buffer holds at least one base',
-    'io::fasta::IndexedReader::<R>::read_into_buffer|overflow-sub|x0,x1':
+    'io::fasta::IndexedReader::<R>::read_into_buffer|overflow-sub|x0,(Try>::branch(IndexedReader::read_line(arg1,arg2,x1,x0,arg5)) as Continue).0':
         'read_line returns bytes_to_keep <= bases_left (both branches of its min logic)',
     'io::fasta::IndexedReader::<R>::read_line|overflow-sub|arg2.line_bases,cmp::min(arg2.line_bases,arg3)':
         'min(a, x) <= a',
     'io::fasta::IndexedReader::<R>::read_line|overflow-sub|arg2.line_bytes,arg3':
-        'line_offset < line_bytes: seek_to returns start % line_bases < line_bases <= line_bytes and read_line resets the '
-        'offset to 0 when it reaches line_bytes',
-    'io::fasta::IndexedReader::<R>::read_line|index|index(x0,RangeTo::RangeTo{x1})<[u8]>':
+        'line_offset < line_bytes: seek_to returns start % line_bases < line_bases <= line_bytes and read_line resets the offset to 0 when it reaches line_bytes',
+    'io::fasta::IndexedReader::<R>::read_line|index|index((Try>::branch(BufRead>::fill_buf(arg1.reader)) as Continue).0,RangeTo::RangeTo{t.1})<[u8]>':
         'bytes_to_keep <= bases_in_buffer <= src.len()',
-    'io::fasta::IndexedReader::<R>::read_line|overflow-add|arg3,x0': 'line_offset + bytes_to_read <= line_bytes <= u64::MAX',
+    'io::fasta::IndexedReader::<R>::read_line|overflow-add|arg3,t.0':
+        'line_offset + bytes_to_read <= line_bytes <= u64::MAX',
     'io::fasta::IndexedReader::<R>::read_line|explicit-panic|panic(lit)<>':
-        'assert!(bytes_to_read > 0): src is non-empty (EOF returned an error above), line_offset < line_bytes, and callers '
-        'pass bases_left > 0 (loop guard in read_into_buffer, assert + guard in fill_buffer/next)',
+        'assert!(bytes_to_read > 0): src is non-empty (EOF returned an error above), line_offset < line_bytes, and callers pass bases_left > 0 (loop guard in read_into_buffer, assert + guard in fill_buffer/next)',
     'io::fasta::IndexedReader::<R>::seek_to|remzero|arg3':
-        'assumption of C12: the index describes lines of width >= 1 (line_bases > 0); a .fai with a zero line width is outside '
-        'the property',
+        'assumption of C12: the index describes lines of width >= 1 (line_bases > 0); a .fai with a zero line width is outside the property',
     'io::fasta::IndexedReader::<R>::seek_to|explicit-panic|panic(lit)<>':
-        'assert!(start <= idx.len): both callers return Err unless stop <= idx.len and start <= stop (rule GD-4 checks that '
-        'these guards dominate the calls)',
+        'assert!(start <= idx.len): both callers return Err unless stop <= idx.len and start <= stop (rule GD-4 checks that these guards dominate the calls)',
     'io::fasta::IndexedReader::<R>::seek_to|overflow-mul|Div(arg3,arg2.line_bases),arg2.line_bytes':
         'start / line_bases * line_bytes <= file size of the indexed FASTA, which fits u64',
-    'io::fasta::IndexedReader::<R>::seek_to|overflow-add|arg2.offset,x0': 'file offsets of an existing file fit u64',
-    'io::fasta::IndexedReader::<R>::seek_to|overflow-add|Add(arg2.offset,x0).0,x1': 'file offsets of an existing file fit u64',
+    'io::fasta::IndexedReader::<R>::seek_to|overflow-add|arg2.offset,Mul(Div(arg3,arg2.line_bases),arg2.line_bytes).0':
+        'file offsets of an existing file fit u64',
+    'io::fasta::IndexedReader::<R>::seek_to|overflow-add|Add(arg2.offset,Mul(Div(arg3,arg2.line_bases),arg2.line_bytes).0).0,Rem(arg3,arg2.line_bases)':
+        'file offsets of an existing file fit u64',
     "io::fasta::IndexedReaderIterator::<'a, R>::fill_buffer|explicit-panic|panic(lit)<>":
         'assert!(self.bases_left > 0): the only caller (next) calls it on the edge bases_left > 0 (checked by GD-4)',
-    "io::fasta::IndexedReaderIterator::<'a, R>::fill_buffer|overflow-sub|arg1.bases_left,x0":
+    "io::fasta::IndexedReaderIterator::<'a, R>::fill_buffer|overflow-sub|arg1.bases_left,(Try>::branch(IndexedReader::read_line(arg1.reader,arg1.record,arg1.line_offset,cmp::min(Vec::capacity(arg1.buf),arg1.bases_left),arg1.buf)) as Continue).0":
         'read_line returns at most bases_to_read <= bases_left',
 }
 
@@ -195,6 +194,13 @@ def gd4(facts, rep):
                         some_t = [tgt for v, tgt in t['vals'] if v == 1] or [t['else']]
                         if err_on(b, eng_gd.region(b, none_t[0]) - eng_gd.region(b, some_t[0])):
                             ok = True
+        # combinator form: map.get(k)[.cloned()].ok_or_else(|| Error)[.and_then(..)] returned
+        for bb, t in b.calls():
+            info = call_info(t)
+            if info and info['fn'].rsplit('::', 1)[-1] == 'get' and 'pj' not in t['dest'] and \
+                    b.locals[t['dest']['l']]['ty'].startswith('std::option::Option<') and \
+                    eng_gd.none_becomes_err(b, t['dest']['l']):
+                ok = True
         n += 1
         if ok:
             rep.ok(rule, key, '%s:%s' % (b.file, b.line), 'lookup miss -> Err')
@@ -327,12 +333,11 @@ def po3(facts, rep):
     rep.floor(rule, 'entry points', len(roots), 7)
     reach = facts.reachable_bodies(roots)
     total = 0
-    for k in sorted(reach):
-        b = facts.bodies[k]
-        if not b.path.startswith(('io::fasta', '<io::fasta')):
-            continue
+    from .po_known import KNOWN
+    bodies = [facts.bodies[k] for k in sorted(reach) if facts.bodies[k].path.startswith(('io::fasta', '<io::fasta'))]
+    for b, nb, ia, obs in eng_po.scan(facts, bodies, KNOWN):
         rep.analysed_body(b)
-        for o in eng_po.obligations_in_context(facts, b, _keep):
+        for o in obs:
             total += 1
             key = '%s|%s|%s' % (b.path, o['kind'], o['ops'])
             if o['discharged']:
